@@ -380,6 +380,13 @@ impl<'a, A: AcceptableMasterList, C: Clock, F: Filter, R: Rng, S: PtpInstanceSta
 
     /// Handle the announce receipt timer going off
     pub fn handle_announce_receipt_timer(&mut self) -> PortActionIterator<'_> {
+        if matches!(self.port_state, PortState::Faulty) {
+            // A port disabled by a peer delay fault only comes back through a clean peer
+            // delay exchange. Keep the timer running so that it is armed once that happens.
+            let duration = self.config.announce_duration(&mut self.rng);
+            return actions![PortAction::ResetAnnounceReceiptTimer { duration }];
+        }
+
         if self
             .instance_state
             .with_ref(|state| state.default_ds.slave_only)
